@@ -282,7 +282,7 @@ def _level_case(case):
             pre = z3.And(_pre(shape, order, c["d"], c["s"], c["e"]),
                          _t(b.lo) == _t(c["s"]), _t(b.hi) == _t(c["e"]),
                          z3.Or(_t(c["s"]) == _t(c["e"]), z3.BoolVal(c["d"] <= max(order - 1, 0))), z3.BoolVal(c["d"] > d))
-            out.append(prove(f"{func}/recursive-call-precondition{tag}/c{ci}", func, hyp, pre, model_vars=mv, case=case, replay=rp,
+            out.append(prove(f"{func}/recursive-call-precondition{tag}/c{ci}", func, hyp, pre, model_vars=mv, case=case, replay=rp, nia=True,
                              text="recursive call: range inside [0,numel], block is the flat view of exactly that range, inside one cell of the previous level, dimension increases (decreases clause)"))
         for oi, (nm, g) in enumerate(obl):
             out.append(prove(f"{func}/{nm}{tag}/o{oi}", func, hyp, g, model_vars=mv, case=case, replay=rp, text=f"torch contract precondition: {nm}"))
